@@ -187,7 +187,14 @@ def mutate(s, m):
     elif cl == "lex_bad_hex_count":
         body = 'CONSTANT k1 : STRING := "000041"; END_CONSTANT;\n'
     elif cl == "argcount":
-        body = "FUNCTION f1x(p1 : INTEGER) : INTEGER;\n  RETURN (p1);\nEND_FUNCTION;\nRULE r1 FOR (e1);\nWHERE\n  wr : f1x(1, 2, 3) > 0;\nEND_RULE;\n"
+        call = "f1x + 1" if m.get("pos") == "noargs" else "f1x(1, 2, 3)"
+        body = "FUNCTION f1x(p1 : INTEGER) : INTEGER;\n  RETURN (p1);\nEND_FUNCTION;\nRULE r1 FOR (e1);\nWHERE\n  wr : %s > 0;\nEND_RULE;\n" % call
+    elif cl == "type_cycle":
+        pos = m.get("pos")
+        body = {"two": "TYPE ta = tb;\nEND_TYPE;\nTYPE tb = ta;\nEND_TYPE;\n",
+                "three": "TYPE ta = tb;\nEND_TYPE;\nTYPE tb = tc;\nEND_TYPE;\nTYPE tc = ta;\nEND_TYPE;\n",
+                "self": "TYPE ta = ta;\nEND_TYPE;\n",
+                "two_used": "TYPE ta = tb;\nEND_TYPE;\nTYPE tb = ta;\nEND_TYPE;\nENTITY eu;\n  item : ta;\n  more : LIST [0:?] OF tb;\nEND_ENTITY;\n"}[pos]
     else:
         raise ValueError(cl)
     t = render(s, head, body)
